@@ -10,7 +10,7 @@
 EXTENDS Naturals, Sequences, TLC, Json
 VARIABLES d
 
-TitleKinds == {"plain", "space", "quote", "dquote", "brace", "format", "digit", "unicode", "long"}
+TitleKinds == {"plain", "space", "quote", "dquote", "brace", "format", "digit", "unicode", "long", "dquote3", "dquote_last", "squote3"}
 ConstKinds == {"int", "float", "bigint", "bool", "text", "text_quote", "text_backslash", "text_newline", "text_brace",
                "datetime", "date", "time", "timedelta", "errstr", "empty", "numtext", "eqtext_const"}
 FormulaKinds == {"none", "valid_arith", "valid_fn", "valid_nested3", "valid_crosssheet", "valid_wholecol", "array_formula",
@@ -35,7 +35,7 @@ MustBeOk == {"none", "valid_arith", "valid_fn", "valid_nested3", "valid_crossshe
 \* reference grammar has no such escape, so rejecting that reference is admissible
 \* a lone "=" is stored by the workbook writer as a TEXT cell (it is not a formula): a constant or a rejection are both admissible
 Expected(f, t) == IF f \in Rejecting THEN {"lib"}
-                  ELSE IF f \in {"valid_crosssheet"} /\ t = "quote" THEN {"ok", "lib"}
+                  ELSE IF f \in {"valid_crosssheet"} /\ t \in {"quote", "squote3"} THEN {"ok", "lib"}
                   ELSE IF f \in MustBeOk THEN {"ok"} ELSE {"ok", "lib"}
 
 Init == d \in [title : TitleKinds, const : ConstKinds, formula : FormulaKinds, place : Placements]
